@@ -218,6 +218,10 @@ def wire_consts(prog):
 
 
 def check(run, prefix="O19"):
+    # the signer bitmask's raw words are an encoding detail: only the encoder / decoder / size function look at them (a decoder-side test on
+    # raw words that the encoder does not mirror rejects the node's own encodings)
+    from . import C09 as _C09
+    _C09.ob_bitmask_access(run, prefix + ".9")
     from . import detectors as _DN
     _DN.ob_new_fields(run, prefix + ".8", ['network::', 'crypto::aggsig', 'crypto::signature'], 'decoders and the network front ends are stateless per datagram')
     from . import detectors as _DS
@@ -389,6 +393,23 @@ def check(run, prefix="O19"):
     for sch, sp_ in sorted(found.items()):
         o.check(sch in REVIEWED_SCHEMAS, "schema-override|%s" % sch, "explicit wire schema %s in a derived impl is reviewed (its length bound admits every value the sender emits)" % sch, sp_)
     o.ok("schema-override|scan", "%d derive-generated wire impl bodies scanned for explicit length / container schemas (%d found)" % (len(prog.anon_bodies), len(found)), "", nontrivial=False)
+    # ... and no field left out of the encoding (`#[wincode(skip)]`): the derived writer of a struct reads every field of it; a skipped
+    # field comes back as its default on the other side and the value no longer round-trips
+    nstruct = 0
+    for r_ in prog.anon_bodies:
+        d_ = r_["def"]
+        m_ = _re.search(r"<impl wincode::schema::SchemaWrite<[^>]*> for ([A-Za-z0-9_:]+)>::write$", d_)
+        if not m_:
+            continue
+        adt = prog.adts.get(m_.group(1))
+        if adt is None or adt.get("is_enum"):
+            continue
+        nstruct += 1
+        wb = mir.Body(r_)
+        rd = set(n_ for (_bb, ow_, n_, _sp) in wb.field_reads() if ow_ == m_.group(1))
+        allf = set(f_["name"] for f_ in adt["variants"][0]["fields"])
+        o.check(allf <= rd, "derived-writer|%s|all-fields" % fshort(m_.group(1)), "the derived encoder of %s writes every field" % fshort(m_.group(1)), r_.get("span", ""), {"not_written": sorted(allf - rd)})
+    o.check(nstruct >= 20, "derived-writer|structs", "%d derived struct encoders examined" % nstruct, "")
 
     # the one hand-rolled encoder outside the derive: the slice's transaction list (count prefix patched in by the block producer)
     if P == "O19":
